@@ -573,6 +573,9 @@ func Site(rec any, stack string) string {
 		}
 
 		return "SEntries0"
+	case strings.Contains(msg, "interface conversion") &&
+		(strings.Contains(stack, "oauth2.createMatcherFromValues") || strings.Contains(stack, "oauth2.decodeMatcherFromMap")):
+		return "SScopes"
 	case strings.Contains(msg, "interface conversion") && strings.Contains(msg, "not string"):
 		if strings.Contains(stack, "mapstructure") {
 			return "SDecode"
@@ -721,4 +724,63 @@ func GenKeyID(r *vf.Rand, c *Content) string {
 	default:
 		return "nope"
 	}
+}
+
+// ------------------------------------------------------------------ YAML / JSON value trees as Gallina [yv]
+
+// YV renders a decoded value tree; below depth 0 containers are cut to empty ones.
+func YV(v any, depth int) string {
+	switch t := v.(type) {
+	case nil:
+		return "YNull"
+	case bool:
+		return "(YBool " + vf.CoqBool(t) + ")"
+	case int:
+		return "(YInt " + vf.CoqZ(int64(t)) + ")"
+	case int64:
+		return "(YInt " + vf.CoqZ(t) + ")"
+	case uint64:
+		return "(YInt " + vf.CoqZ(int64(t)) + ")"
+	case float64:
+		return "YFloat"
+	case string:
+		return "(YStr " + vf.CoqStr(t) + ")"
+	case []any:
+		if depth <= 0 {
+			return "(YList [])"
+		}
+
+		items := make([]string, len(t))
+		for i := range t {
+			items[i] = YV(t[i], depth-1)
+		}
+
+		return "(YList " + vf.CoqList(items) + ")"
+	case map[string]any:
+		if depth <= 0 {
+			return "(YMap [])"
+		}
+
+		return "(YMap " + YMapCoq(t, depth-1) + ")"
+	case map[any]any:
+		return "YMapAny"
+	}
+
+	return "YFloat" // time.Time etc.: some non-string scalar
+}
+
+func YMapCoq(m map[string]any, depth int) string {
+	keys := make([]string, 0, len(m))
+	for k := range m {
+		keys = append(keys, k)
+	}
+
+	sort.Strings(keys)
+
+	items := make([]string, len(keys))
+	for i, k := range keys {
+		items[i] = vf.CoqPair(vf.CoqStr(k), YV(m[k], depth))
+	}
+
+	return vf.CoqList(items)
 }
